@@ -1,10 +1,11 @@
 /-
 C04 — the object-valued part from the C01 theorems: the hypothesis records `ObjRT` (parameters) and
 `ChildRT.iret` (result lists) of Proofs/Lemmas/Ops.lean discharged from the C01 object round trip
-(`Proofs.CimXml.rt_obj`, `rt_path`, `rt_inst`) and the XmlSyntax stability lemma (`wireTree_stable`).
+(`Proofs.CimXml.rt_obj`, `rt_path`, `rt_inst`), the wire lemma `wireTree_norm` (the receiver sees the tree up to
+text chunking) and `decodeTop_norm` & co. (the decoders are blind to text chunking).
 -/
 import Proofs.Lemmas.Ops
-import Proofs.Lemmas.CimXml8
+import Proofs.Lemmas.CimXml15
 import Proofs.Lemmas.XmlParse
 
 set_option linter.unusedSimpArgs false
@@ -14,19 +15,23 @@ namespace Proofs.OpsC01
 open Pywbem.Model Pywbem.Model.XmlText Pywbem.Model.XmlParse Pywbem.Model.Ops Pywbem.Proto
 open Proofs.Ops Proofs.CimXml Proofs.XmlParse Pywbem.Generated.OpsSig
 
-/-- an object the C01 round trip speaks about, whose encoding the wire leaves alone: sendable (C01), embedded
-    nesting within the parser's depth, element/attribute names are XML Names and all characters XML Chars
-    (`WfTree`), no CR in texts, no TAB/LF/CR in attribute values, no empty string value (`StableTree`) -/
+/-- an object the C01 round trip speaks about, whose encoding the wire leaves alone up to text chunking: sendable
+    (C01), embedded nesting within the parser's depth, element/attribute names are XML Names and all characters
+    XML Chars (`WfTree`), no CR in texts, no TAB/LF/CR in attribute values (`SoftStable`; empty string values are
+    allowed) -/
 def WireOk (C : DecCodec) (S : Spec) (d : Nat) (o : Obj) : Prop :=
-  Sendable S o ∧ embDepth o ≤ d ∧ WfTree (encObj C.toCodec o) ∧ StableTree (encObj C.toCodec o)
+  Sendable S o ∧ embDepth o ≤ d ∧ WfTree (encObj C.toCodec o) ∧ SoftStable (encObj C.toCodec o)
 
-/-- **`ObjRT` discharged from C01**: for wire-stable sendable objects the server-side decoder applied to the
-    tree as it arrives gives the object with the DSP0201 defaults -/
+/-- **`ObjRT` discharged from C01**: for such objects the server-side decoder applied to the tree as it arrives
+    gives the object with the DSP0201 defaults -/
 theorem objrt_from_C01 (C : DecCodec) (S : Spec) (hC : CodecOk C S) (d : Nat) :
     ObjRT C d (WireOk C S d) (wdObj C.toCodec) := by
   constructor
   intro o ⟨hs, hd, hw, hst⟩
-  exact ⟨encObj C.toCodec o, wireTree_stable _ hw hst, rt_obj C S hC o hs d hd⟩
+  refine ⟨normTree (encObj C.toCodec o), wireTree_norm _ hw hst, ?_⟩
+  unfold decode
+  rw [decodeTop_norm]
+  exact rt_obj C S hC o hs d hd
 
 /-! ### result items that travel as one of the element kinds `parse_any` returns as a plain object -/
 
@@ -172,14 +177,16 @@ theorem plainObjOf_root (C : Codec) (host op : Str) (x : RItem) (o : Obj) (h : p
   | opPath p => simp [plainObjOf] at h
   | opCls p c => simp [plainObjOf] at h
 
-/-- one plain result item: written by the server, read by the client's parser -/
+/-- one plain result item: written by the server, read by the client's parser from the tree as it arrives -/
 theorem decRetItem_plain (C : DecCodec) (S : Spec) (hC : CodecOk C S) (d : Nat) (host op : Str) (x : RItem) (o : Obj)
     (h : plainObjOf host op x = some o) (hs : Sendable S o) (hd : embDepth o ≤ d) :
-    decRetItem C (embAt C d) (ritemXml C.toCodec host op x) = .ok (.plain (wdObj C.toCodec o)) := by
+    decRetItem C (embAt C d) (normTree (ritemXml C.toCodec host op x)) = .ok (.plain (wdObj C.toCodec o)) := by
   obtain ⟨m, hm, as, ks, he⟩ := plainObjOf_root C.toCodec host op x o h
   have hr := rt_obj C S hC o hs d hd
   unfold decode at hr
+  rw [← decodeTop_norm] at hr
   rw [ritemXml_plain C.toCodec host op x o h, he] at *
+  rw [normTree_elem] at hr ⊢
   rw [decRetItem_plainRoot C _ m hm, hr]
 
 /-! ### lists -/
@@ -189,16 +196,27 @@ theorem wfKids_of_all {l : List Xml} (h : ∀ k ∈ l, wfTree k = true) : wfKids
   | nil => rfl
   | cons a r ih => simp [wfKids, h a (by simp), ih (fun k hk => h k (by simp [hk]))]
 
-theorem stableKids_of_all {l : List Xml} (he : AllElem l) (h : ∀ k ∈ l, stableTree k = true) : stableKids l = true := by
+theorem softKids_of_all {l : List Xml} (h : ∀ k ∈ l, softTree k = true) : softKids l = true := by
   induction l with
   | nil => rfl
+  | cons a r ih => simp [softKids, h a (by simp), ih (fun k hk => h k (by simp [hk]))]
+
+/-- a list of elements after the wire: every element normalised, nothing else -/
+theorem normKids_allElem {l : List Xml} (he : AllElem l) : normKids [] l = l.map normTree := by
+  induction l with
+  | nil => simp [normKids, flushT]
   | cons a r ih =>
     have ha := he a (by simp)
     cases a with
     | text s => simp [Xml.isElem] at ha
     | elem n as kk =>
-      simp [stableKids, h _ (by simp : Xml.elem n as kk ∈ Xml.elem n as kk :: r),
-        ih (fun k hk => he k (by simp [hk])) (fun k hk => h k (by simp [hk]))]
+      rw [normKids_elem, flushT_nil, ih (fun k hk => he k (by simp [hk]))]
+      rfl
+
+theorem normTree_isElem (t : Xml) (h : t.isElem = true) : (normTree t).isElem = true := by
+  cases t with
+  | text s => simp [Xml.isElem] at h
+  | elem n as ks => rw [normTree_elem]; rfl
 
 theorem firstElem_cons_elem (n : Str) (as : List (Str × Str)) (kk ks : List Xml) :
     firstElem (.elem n as kk :: ks) = some (.elem n as kk) := rfl
@@ -220,45 +238,54 @@ theorem decRetItems_map {α : Type} (C : DecCodec) (emb : Str → R Atom) (nm : 
       subst h2
       simp [List.map_cons, hfa, decRetItems, Xml.name, h3, ih', pure, Except.pure, bind, Except.bind]
 
-/-- a homogeneous list of result items, each of which is wire-stable and read back as `v x` -/
+/-- a homogeneous list of result items, each of which passes the wire up to text chunking and is read back as
+    `v x` from the tree as it arrives -/
 theorem iret_of_items (C : DecCodec) (d : Nat) (host op : Str) (l : List RItem) (v : RItem → CItem) (nm : Str)
     (h : ∀ x ∈ l, (ritemXml C.toCodec host op x).isElem = true ∧ (ritemXml C.toCodec host op x).name = nm ∧
-      wfTree (ritemXml C.toCodec host op x) = true ∧ stableTree (ritemXml C.toCodec host op x) = true ∧
-      decRetItem C (embAt C d) (ritemXml C.toCodec host op x) = .ok (v x)) :
+      wfTree (ritemXml C.toCodec host op x) = true ∧ softTree (ritemXml C.toCodec host op x) = true ∧
+      decRetItem C (embAt C d) (normTree (ritemXml C.toCodec host op x)) = .ok (v x)) :
     ChildRT C (embAt C d) host op (.iret l) (.iret (l.map v)) := by
   have hmap : ritemsXml C.toCodec host op l = l.map (ritemXml C.toCodec host op) := by
     clear h
     induction l with
     | nil => rfl
     | cons a r ih => simp [ritemsXml, ih]
-  have hall : AllElem (l.map (ritemXml C.toCodec host op)) := by
+  have hall0 : AllElem (l.map (ritemXml C.toCodec host op)) := by
     intro k hk
     simp only [List.mem_map] at hk
     obtain ⟨x, hx, rfl⟩ := hk
     exact (h x hx).1
+  let g := fun x => normTree (ritemXml C.toCodec host op x)
+  have hall : AllElem (l.map g) := by
+    intro k hk
+    simp only [List.mem_map] at hk
+    obtain ⟨x, hx, rfl⟩ := hk
+    exact normTree_isElem _ (h x hx).1
   have hwf : wfKids (l.map (ritemXml C.toCodec host op)) = true := by
     apply wfKids_of_all
     intro k hk
     simp only [List.mem_map] at hk
     obtain ⟨x, hx, rfl⟩ := hk
     exact (h x hx).2.2.1
-  have hst : stableKids (l.map (ritemXml C.toCodec host op)) = true := by
-    apply stableKids_of_all hall
+  have hst : softKids (l.map (ritemXml C.toCodec host op)) = true := by
+    apply softKids_of_all
     intro k hk
     simp only [List.mem_map] at hk
     obtain ⟨x, hx, rfl⟩ := hk
     exact (h x hx).2.2.2.1
-  have hdec := decRetItems_map C (embAt C d) nm (ritemXml C.toCodec host op) v l
-    (fun x hx => ⟨(h x hx).1, (h x hx).2.1, (h x hx).2.2.2.2⟩)
-  refine .iret l _ ⟨l.map (ritemXml C.toCodec host op), ?_, hall, ?_⟩
-  · rw [hmap]; exact wireKids_stable _ hwf hst
+  have hdec := decRetItems_map C (embAt C d) nm g v l
+    (fun x hx => ⟨normTree_isElem _ (h x hx).1, by rw [normTree_name]; exact (h x hx).2.1, (h x hx).2.2.2.2⟩)
+  refine .iret l _ ⟨l.map g, ?_, hall, ?_⟩
+  · rw [hmap, wireKids_norm _ [] (by intro c hc; simp at hc) (by simp) hwf hst, normKids_allElem hall0,
+      List.map_map]
+    rfl
   · have hnt := noText_allElem hall
     cases l with
     | nil => simp [decIReturnValue, checkNode, attrKeysOk, noText, firstElem, pure, Except.pure, bind, Except.bind]
     | cons a r =>
-      have ha := (h a (by simp)).1
-      have hn := (h a (by simp)).2.1
-      cases hfa : ritemXml C.toCodec host op a with
+      have ha : (g a).isElem = true := normTree_isElem _ (h a (by simp)).1
+      have hn : (g a).name = nm := by rw [normTree_name]; exact (h a (by simp)).2.1
+      cases hfa : g a with
       | text s => rw [hfa] at ha; simp [Xml.isElem] at ha
       | elem n as kk =>
         rw [hfa] at hn
@@ -297,28 +324,33 @@ theorem encPath_full_root (C : Codec) (p : Path) (h : FullInstPath p) :
 
 theorem decRetItem_opPath (C : DecCodec) (S : Spec) (hC : CodecOk C S) (d : Nat) (p : Path) (hf : FullInstPath p)
     (hs : SendablePath S p) :
-    decRetItem C (embAt C d) (E "OBJECTPATH" [] [encPath C.toCodec p]) =
+    decRetItem C (embAt C d) (normTree (E "OBJECTPATH" [] [encPath C.toCodec p])) =
       .ok (.tagged "OBJECTPATH".toList (.obj (.path (wdPath C.toCodec p)))) := by
   obtain ⟨ks, he⟩ := encPath_full_root C.toCodec p hf
   have hr := rt_path C S hC p hs
+  rw [← decPathAny_norm] at hr
   rw [he] at hr ⊢
+  rw [normTree_elem] at hr
   simp at hr
-  simp [E, decRetItem, checkNode, attrKeysOk, noText, oneChild, Xml.elemKids, nameIn, Xml.name, hr, pure, Except.pure,
-    bind, Except.bind]
+  simp [E, normTree_elem, normKids_elem, normKids_nil, flushT, decRetItem, checkNode, attrKeysOk, noText, oneChild,
+    Xml.elemKids, nameIn, Xml.name, hr, pure, Except.pure, bind, Except.bind]
 
 theorem decRetItem_opInst (C : DecCodec) (S : Spec) (hC : CodecOk C S) (d : Nat) (p : Path) (i : Inst)
     (hf : FullInstPath p) (hs : SendablePath S p) (hi : SendableInstBody S i) (hd : depthInst i ≤ d) :
-    decRetItem C (embAt C d) (E "VALUE.OBJECTWITHPATH" [] [encPath C.toCodec p, encInstElem C.toCodec i]) =
+    decRetItem C (embAt C d) (normTree (E "VALUE.OBJECTWITHPATH" [] [encPath C.toCodec p, encInstElem C.toCodec i])) =
       .ok (.tagged "VALUE.OBJECTWITHPATH".toList
         (.obj (.inst (Inst.setPath (wdPath C.toCodec p) (wdInstNoPath C.toCodec i))))) := by
   obtain ⟨ks, he⟩ := encPath_full_root C.toCodec p hf
   have hr := rt_path C S hC p hs
   have hri := rt_inst C S hC i d hi hd
+  rw [← decPathAny_norm] at hr
+  rw [← decInstance_norm] at hri
   obtain ⟨c, pp, ps, qs⟩ := i
   rw [he] at hr ⊢
   simp only [encInstElem, E] at hri ⊢
+  rw [normTree_elem] at hr hri
   simp at hr hri
-  simp [decRetItem, checkNode, attrKeysOk, noText, Xml.elemKids, Xml.name, hr, hri, pure, Except.pure, bind,
-    Except.bind]
+  simp [normTree_elem, normKids_elem, normKids_nil, flushT, decRetItem, checkNode, attrKeysOk, noText, Xml.elemKids,
+    Xml.name, hr, hri, pure, Except.pure, bind, Except.bind]
 
 end Proofs.OpsC01
